@@ -223,11 +223,23 @@ class Program:
         self.swapped = []
         self.differing = []
         self.dropped_helpers = []
+        self.renamed = []
+        self.relocated = []
         self._load()
         if normalise and not os.environ.get("VERIF_NO_NORMALISE"):
             from . import inline
 
+            inline.undo_renames(self)
             inline.normalise(self)
+
+    def _reindex(self):
+        """rebuild the symbol tables from the (possibly rewritten) module trees"""
+        self.functions = {}
+        self.classes = {}
+        for m in self.modules.values():
+            m.classes, m.functions, m.imports, m.globals = {}, {}, {}, {}
+        for m in self.modules.values():
+            self._index_module(m)
 
     # ---- loading -------------------------------------------------------------------
     def _load(self):
